@@ -1043,8 +1043,8 @@ void h_prod_row_width(void)
     entry='h_prod_row_width', mode='unwound', unwind='max(AMAX, 3*NMAX+3, ZMAX)+3', model='int32',
     variants=[{'NMAX': 3, 'ZMAX': 3, 'AMAX': 5, 'VMASK': 1, 'NA_MAX': 2}, {'NMAX': 3, 'ZMAX': 3, 'AMAX': 5, 'VMASK': 1, 'NA': 3},
               {'NMAX': 3, 'ZMAX': 3, 'AMAX': 5, 'VMASK': 1, 'NA': 4}, {'NMAX': 3, 'ZMAX': 3, 'AMAX': 5, 'VMASK': 1, 'NA': 5}],
-    thorough_variants=[{'NMAX': 3, 'ZMAX': 4, 'AMAX': 5, 'VMASK': 1}, {'NMAX': 4, 'ZMAX': 4, 'AMAX': 6, 'VMASK': 1}],
-    bound_text='B up to 3x3 with nnz <= 3 (thorough nnz <= 4; 4x4), rows strictly ascending; row of A with 0..5 entries (thorough 6), any order, repeated columns allowed',
+    thorough_variants=[{'NMAX': 3, 'ZMAX': 4, 'AMAX': 5, 'VMASK': 1}, {'NMAX': 4, 'ZMAX': 4, 'AMAX': 5, 'VMASK': 1, 'NA_MAX': 3}],
+    bound_text='B up to 3x3 with nnz <= 3 (thorough nnz <= 4; 4x4 with a row of A of at most 3 entries), rows strictly ascending; row of A with 0..5 entries, any order, repeated columns allowed',
     assumptions=A_RMERGE, replay='kernels', timeout=300,
     witness=wit('B') + ['w_na', 'w_acol'],
 )
